@@ -75,6 +75,7 @@ def _case(draw, wide=False):
                   st.sampled_from([1, 3, 7, 15, 63, 13, 2, 12])).map(list),
         st.just(['next']),
         st.just(['reopen']),
+        st.just(['visit']),
     )
     ops = draw(st.lists(op, min_size=4, max_size=30))
     if wide:
@@ -256,6 +257,10 @@ def execute(case):
                                  f'{where}: (got, want) per target: {diff}')
             elif kind == 'next':
                 pass  # checked by check_catalogue below
+            elif kind == 'visit':
+                # the process works on another database in between
+                if s.visit_other_database():
+                    out.label('another-database-visited')
             elif kind == 'reopen':
                 s.reopen()
                 out.label('reopen')
